@@ -122,6 +122,9 @@ pub struct Runner {
     pub check_snapshot: bool,
     /// known-finding situations met in this history (key, description)
     pub known_hits: Vec<(String, String)>,
+    /// report finding F5 (a recipient closed because a payload could not be converted); only the
+    /// property that forbids it (C11) switches this on
+    pub report_conversion_close: bool,
 }
 
 fn payload_equal(expected: &[u8], real: &[u8], recipient_minor: u32) -> bool {
@@ -150,6 +153,7 @@ impl Runner {
             saw_zombie: false,
             check_snapshot: true,
             known_hits: Vec::new(),
+            report_conversion_close: false,
         }
     }
 
@@ -370,7 +374,7 @@ impl Runner {
         }
         // connection ends
         for (c, way) in &exp.ended {
-            if *way == EndWay::ConversionFailed {
+            if *way == EndWay::ConversionFailed && self.report_conversion_close {
                 self.known_hits.push((
                     "undecodable-payload-closes-older-recipient".to_string(),
                     format!("connection c{c} (1.{}) was closed because a payload sent to it by a 1.20 peer could not be converted to its version", self.model.conns[*c].minor),
